@@ -529,7 +529,9 @@ func runProperty(prop string, ps *propSpec, opt options) int {
 				}
 			}
 			violationLines = append(violationLines, fmt.Sprintf("VIOLATION property=%s replay=%s", prop, p))
-			fmt.Printf("  violation: %s\n", desc)
+			if len(violationLines) <= 8 {
+				fmt.Printf("  violation: %s\n", desc)
+			}
 			ev.Violations++
 		}
 	}
@@ -537,7 +539,11 @@ func runProperty(prop string, ps *propSpec, opt options) int {
 	for _, l := range knownLines {
 		fmt.Println(l)
 	}
-	for _, l := range violationLines {
+	for i, l := range violationLines {
+		if i == 8 {
+			fmt.Printf("(%d more violations not listed; replay files are in %s)\n", len(violationLines)-8, repDir)
+			break
+		}
 		fmt.Println(l)
 	}
 	if len(violationLines) > 0 {
